@@ -36,7 +36,7 @@ TABLE = [
     ("array", "MaxItems", "is_list(value)", "list", "(list,)", {"maxItems": "is_num({p})"},
      "len(value) > num(self.params['maxItems'])", {}),
     ("array", "AdditionalItems", "is_list(value)", "list", "(list,)",
-     {"items": "(is_list({p}) or is_obj({p}))", "additionalItems": "(is_bool({p}) or is_obj({p}))"},
+     {"items": "((is_list({p}) and forall(lambda j: is_obj({p}[j]), len({p}))) or is_obj({p}))", "additionalItems": "(is_bool({p}) or is_obj({p}))"},
      "is_list(self.params['items']) and len(value) > len(self.params['items']) and not truthy(self.params['additionalItems'])", {}),
     ("array", "Contains", "is_list(value) and forall(lambda j: not is_np(value[j]), len(value))", "list", "(list,)",
      {"contains": "is_obj({p})"},
@@ -87,7 +87,9 @@ for _mod, _K, _vp, _vk, _ts, _kws, _cond, _extra in TABLE:
             continue
         _wf.append(f"(attr_absent(e,'{_kw}') or is_np({_p}) or ({_req.replace('{p}', _p).replace('{x}', _p)}))")
 _wf.append("(attr_absent(e,'additionalProperties') or is_bool(e.additionalProperties) or is_obj(e.additionalProperties))")
-_wf.append("(attr_absent(e,'patternProperties') or is_np(e.patternProperties) or dict_wf(e.patternProperties))")
+_wf.append("(attr_absent(e,'patternProperties') or is_np(e.patternProperties) or (dict_wf(e.patternProperties) and "
+           "forall(lambda j: is_obj(val_at(e.patternProperties, j)), len(e.patternProperties))))")
+_wf.append("(attr_absent(e,'__properties__') or is_np(e.__properties__) or isinstance(e.__properties__, Properties))")
 _wf.append("(attr_absent(e,'const') or is_np(e.const) or is_json(e.const))")
 _wf.append("(attr_absent(e,'enum') or is_np(e.enum) or (is_json(e.enum) and is_list(e.enum)))")
 _wf.append("(attr_absent(e,'uniqueItems') or is_np(e.uniqueItems) or is_bool(e.uniqueItems))")
